@@ -942,6 +942,41 @@ pub fn run(cfg: &Cfg) -> Report {
     };
     inputs.push(("bif-stress".into(), e));
   }
+  // list and string built-ins with every small position / length against short operands
+  for _ in 0..(if thorough { 30000 } else { 600 }) {
+    let n = rng.below(7);
+    let items: Vec<String> = (1..=n).map(|i| i.to_string()).collect();
+    let list = format!("[{}]", items.join(", "));
+    let text: String = (0..n).map(|i| ['a', 'é', 'b', '🙏', 'c', 'd'][i as usize % 6]).collect();
+    let (p, l) = (rng.range(-8, 9), rng.range(-2, 9));
+    let e = match rng.below(8) {
+      0 => format!("sublist({}, {}, {})", list, p, l),
+      1 => format!("sublist({}, {})", list, p),
+      2 => format!("substring(\"{}\", {}, {})", text, p, l),
+      3 => format!("substring(\"{}\", {})", text, p),
+      4 => format!("insert before({}, {}, 0)", list, p),
+      5 => format!("remove({}, {})", list, p),
+      6 => format!("{}[{}]", list, p),
+      _ => format!("sublist(list: {}, start position: {}, length: {})", list, p, l),
+    };
+    inputs.push(("bif-stress".into(), e));
+  }
+  // temporal literals with offsets of any two digits, read, printed and compared
+  for _ in 0..(if thorough { 20000 } else { 400 }) {
+    let any_hour = rng.below(100);
+    let hour = *rng.pick(&[0u64, 1, 13, 14, 15, 23, 24, 25, 27, 59, 99, any_hour]);
+    let minute = *rng.pick(&[0u64, 30, 59, 60, 99]);
+    let off = format!("{}{:02}:{:02}", if rng.chance(1, 2) { "+" } else { "-" }, hour, minute);
+    let e = match rng.below(6) {
+      0 => format!("time(\"10:00:00{}\")", off),
+      1 => format!("date and time(\"2020-01-01T10:00:00{}\")", off),
+      2 => format!("date and time(\"2020-01-01T10:00:00{}\") = date and time(\"2020-01-01T10:00:00Z\")", off),
+      3 => format!("date and time(\"2020-01-01T10:00:00{}\") < date and time(\"2020-01-01T10:00:00Z\")", off),
+      4 => format!("string(time(\"23:59:59{}\"))", off),
+      _ => format!("date and time(\"2020-01-01T10:00:00{}\") - date and time(\"2020-01-01T10:00:00Z\")", off),
+    };
+    inputs.push(("bif-stress".into(), e));
+  }
   // strings with control characters (NUL included) handed to the conversions
   for _ in 0..(if thorough { 4000 } else { 120 }) {
     let t = *rng.pick(&["\\u0000", "1\\u00002", "\\u0000 1", "12\\u0000", "\\u0001", "\\u007F", "\\n1", "1\\t", "\\uFEFF1", "1e\\u00005"]);
